@@ -17,7 +17,34 @@ import (
 	"verif/vp"
 )
 
+// c18Unblock: when armed, the host-side blocked listener of a multiplexed brokered server is held at the
+// moment a knock has unblocked it (hook point grpcmux.client.unblocked), before it goes to fetch the stream,
+// until released: Kill arrives in between.
+var c18Unblock struct {
+	mu       sync.Mutex
+	armed    bool
+	hit      chan struct{}
+	released chan struct{}
+}
+
 func TestC18(t *testing.T) {
+	plugin.VerifSetHook(func(name string, id uint32) {
+		if name != "grpcmux.client.unblocked" {
+			return
+		}
+		c18Unblock.mu.Lock()
+		armed, hit, rel := c18Unblock.armed, c18Unblock.hit, c18Unblock.released
+		c18Unblock.armed = false
+		c18Unblock.mu.Unlock()
+		if !armed {
+			return
+		}
+		close(hit)
+		select {
+		case <-rel:
+		case <-time.After(20 * time.Second):
+		}
+	})
 	// one case at a time per host process: goroutines are attributed by before/after counts
 	forCases(t, 1, func(c spec.Case, e Em) {
 		var p spec.C18Case
@@ -64,6 +91,7 @@ func TestC18(t *testing.T) {
 		var conns []*grpc.ClientConn
 		var handles []*vp.AcceptHandle
 		var userListeners []net.Listener
+		releaseUnblock := func() {}
 		id := uint32(300)
 		for _, st := range p.Steps {
 			id++
@@ -102,6 +130,22 @@ func TestC18(t *testing.T) {
 			case "p-accept-open": // the plugin accepts a brokered listener and keeps it open until it exits
 				if _, isGRPC := cli.(*vp.GRPCCli); isGRPC {
 					_, serr = cli.Do("grpc-accept-raw", "id", id)
+				}
+			case "p2h-kill-at-unblock": // (multiplexing) Kill arrives when a knock has just unblocked a host-side listener
+				if x, isGRPC := cli.(*vp.GRPCCli); isGRPC && mux {
+					h := vp.GRPCAcceptServe(x.Broker, id, "h")
+					handles = append(handles, h)
+					c18Unblock.mu.Lock()
+					c18Unblock.armed, c18Unblock.hit, c18Unblock.released = true, make(chan struct{}), make(chan struct{})
+					hit, rel := c18Unblock.hit, c18Unblock.released
+					c18Unblock.mu.Unlock()
+					releaseUnblock = func() { close(rel) }
+					go cli.Do("grpc-dial", "id", id, "timeoutMs", 3000)
+					select {
+					case <-hit:
+					case <-time.After(5 * time.Second):
+						serr = fmt.Errorf("the knock never unblocked the host-side listener")
+					}
 				}
 			case "h-accept-undialled": // the host accepts a brokered id that the plugin never dials; Kill comes inside its window
 				switch x := cli.(type) {
@@ -179,6 +223,7 @@ func TestC18(t *testing.T) {
 		for _, ln := range userListeners {
 			ln.Close()
 		}
+		releaseUnblock()
 		o.KillReturned = ok
 		if p.KeepConns {
 			for _, cc := range conns {
